@@ -21,6 +21,6 @@ ASSUME = c10.ASSUME + [
 def main(tier, seed, replay):
     codec.write_fam_env()
     c10.TRUSTED, c10.ASSUME = TRUSTED, ASSUME
-    return c10.run("C16", "c16", tier, seed, replay, "Props.C16", "Corr/KeySetCorr.vo",
+    return c10.run("C16", "c16", tier, seed, replay, ["Props.C16", "Props.C16_defaults"], "Corr/KeySetCorr.vo",
                    "corr:keyset (model key set / re-keying vs the real batchkeyset and BatchResponse.UnmarshalWithKeyLocator)",
                    ["TablesFnv", "TablesCodec"], post=rootmode.post("c16"))
